@@ -267,7 +267,9 @@ def region_sel(cfg, op):
     out = []
     for c in itertools.product(*(range(n * (1 << lv)) for n in g.n0)):
         x = list(reversed(g.cell_center(lv, c)))
-        if pred['type'] == 'halfspace':
+        if pred['type'] == 'box':
+            ok = all(Fraction(l) <= xi < Fraction(h) for l, xi, h in zip(pred['lo'], x, pred['hi']))
+        elif pred['type'] == 'halfspace':
             ok = sum(Fraction(n) * xi for n, xi in zip(pred['n'], x)) < Fraction(pred['b'][0], pred['b'][1])
         else:
             ok = sum((xi - Fraction(ci)) ** 2 for ci, xi in zip(pred['c'], x)) < Fraction(pred['r2'][0], pred['r2'][1])
@@ -617,6 +619,37 @@ def gen_cases(ctx):
     for axes, d in chain_cfgs:
         cases.append({'cfg': cfg(axes, d, rng.random() < 0.5), 'mode': 'chain', 'seed': rng.randrange(1 << 30),
                       'nops': 2 * d + 2, 'cap': 600, 'what': 'chain-%dd-d%d' % (len(axes), d)})
+    # --- refine_region histories on one object: a level is refined through refine_region, other levels
+    # change, the level regains active cells elsewhere (same count: two slabs of equal width) and is refined
+    # again with a predicate that also covers the old, meanwhile deactivated cells.  Box predicates with dyadic
+    # bounds (exact in floating point); coordinates are in the (x, y, ..) order of region_function.
+    def box(dim, i, lo, hi, nmax):
+        l = [-1.0] * dim
+        h = [float(nmax + 1)] * dim
+        l[i], h[i] = float(lo), float(hi)
+        return {'type': 'box', 'lo': l, 'hi': h}
+    for k in range(24 if thorough else 8):
+        dim = 1 if k % 3 != 2 else 2
+        n = rng.choice([4, 5, 6]) if dim == 1 else rng.choice([3, 4])
+        p = rng.randint(1, 3)
+        w = rng.choice([1, 1, 2]) if n >= 4 else 1
+        s1 = rng.randrange(0, n - 2 * w + 1)
+        s2 = rng.randrange(s1 + w, n - w + 1)
+        if rng.random() < 0.5:
+            s1, s2 = s2, s1
+        i = rng.randrange(dim)
+        R = lambda lv, lo, hi: {'kind': 'region', 'lv': lv, 'pred': box(dim, i, lo, hi, n)}
+        sub = rng.choice([0.5, 0.25, 0.75]) * w
+        ops = [R(0, s1, s1 + w), R(1, s1, s1 + w), R(2, s1, s1 + sub)]
+        if rng.random() < 0.4:
+            ops.append(R(3, s1, s1 + sub / 2))
+        ops.append(R(0, s2, s2 + w))
+        cover = (min(s1, s2), max(s1, s2) + w) if rng.random() < 0.7 else (-1, n + 1)
+        ops.append(R(1, cover[0], cover[1]))
+        ops.append(R(2, -1, n + 1) if rng.random() < 0.5 else R(1, -1, n + 1))
+        d = rng.choice([None, None, None, 2, 3])
+        cases.append({'cfg': cfg([uniform_axis(p, n) for _ in range(dim)], d, rng.random() < 0.5), 'mode': 'history',
+                      'what': 'region-revisit-%dd' % dim, 'ops': ops, 'seed': rng.randrange(1 << 30)})
     # --- seeded random histories
     nrand = 1000 if thorough else 70
     for _ in range(nrand):
